@@ -71,15 +71,19 @@ where
         let initial_skip =
             crop_area.top_left.y as usize * size.width as usize + crop_area.top_left.x as usize;
 
-        if initial_skip > 0 {
-            iter.nth(initial_skip - 1);
-        }
+        // If the iterator ends inside the skipped part nothing is left to crop. The iterator
+        // isn't polled again in this case, because it isn't required to be fused.
+        let crop_size = if initial_skip > 0 && iter.nth(initial_skip - 1).is_none() {
+            Size::zero()
+        } else {
+            crop_area.size
+        };
 
         Self {
             iter,
             x: 0,
             y: 0,
-            size: crop_area.size,
+            size: crop_size,
             row_skip: (size.width - crop_area.size.width) as usize,
         }
     }
